@@ -205,8 +205,10 @@ Definition flush (st : wstate) : wres * wstate * list wev :=
   | None => let '(r, st2, e2) := io_flush st1 in (r, st2, evs ++ e2)
   end.
 
-(* Framed::close as of the pinned tree (framed.rs:269-279 before the `fix:` commit): flushes the
-   TRANSPORT, not write_buf.  Kept for the refutation witness C14_pinned_close_refuted. *)
+(* Framed::close as it was on the pinned tree (framed.rs:269-279 before /repo commit c905ff7
+   "fix: actix-codec: Framed::close flushes the write buffer ..."): it polled the TRANSPORT's
+   poll_flush, not Framed::flush.  No longer the code; kept only for the refutation witness
+   C14_pinned_close_refuted (defect D4). *)
 Definition close_pinned (st : wstate) : wres * wstate * list wev :=
   let '(r, st1, e1) := io_flush st in
   match r with
@@ -214,8 +216,14 @@ Definition close_pinned (st : wstate) : wres * wstate * list wev :=
   | _ => (r, st1, e1)
   end.
 
-(* Framed::close *)
-Definition close (st : wstate) : wres * wstate * list wev := close_pinned st.
+(* Framed::close (framed.rs:269-279): `ready!(self.as_mut().flush(cx))?;` then
+   `ready!(io.poll_shutdown(cx))?` *)
+Definition close (st : wstate) : wres * wstate * list wev :=
+  let '(r, st1, e1) := flush st in
+  match r with
+  | ROk => let '(r2, st2, e2) := io_shutdown st1 in (r2, st2, e1 ++ e2)
+  | _ => (r, st1, e1)
+  end.
 
 Definition wlen (st : wstate) : N := N.of_nat (length (wbuf st)).
 (* is_write_ready / is_write_buf_full / is_write_buf_empty *)
